@@ -386,6 +386,7 @@ def main():
     for n in [int(x) for x in a.ns.split(",")]:
         traces = []
         nact = 2 ** n - n - 2
+        prev_games, prev_cls = None, None
         for i in range(a.count):
             tid += 1
             # exact source: gap cycles with the trace index; family source: every (family, gap) pair is visited
@@ -412,6 +413,11 @@ def main():
                     games_f[1] = [float(sum(w[j] for j in range(n) if c >> j & 1)) for c in range(2 ** n)]
                 if rng.random() < 0.1:
                     games_f = [[x * 2.0 ** -30 for x in g] for g in games_f]      # very small magnitude, still exact (all games of the trace alike)
+                # every other trace sees the SAME hidden games as the one before it, under another game class / gap function, in the same
+                # interpreter (seeds C09-f, C12-a: process-wide memos keyed by part of what the result depends on)
+                if i % 2 == 1 and prev_games is not None and (prev_cls == "SAM" or comp != "sam"):
+                    games_f, cls = prev_games, prev_cls
+                prev_games, prev_cls = games_f, cls
                 mode = "exact"
                 scale = 1
                 while any(x * scale != round(x * scale) for g in games_f for x in g):
